@@ -15,7 +15,7 @@ func init() {
 		ID:          "C09",
 		Level:       "other",
 		Run:         runC09,
-		Explanation: "E-PATH over each pipelined variant's Run: R09.1 on every path from the branch taken on the ret flag to the normal return there are drain loops that cycle the execute units and the write units until empty, and no stage upstream of one drained earlier is cycled later without draining the downstream stage again (execute units refill the write bus); R09.2 the control unit does not dispatch ret while the execute bus is non-empty or (where the unit tracks it) a conditional branch is unresolved; R09.3 the decode unit stops decoding after ret until flushed; R09.4 the fall-off-the-end exit is guarded by the completion predicate. Decides that ending the program is structurally preceded by draining every stage that can hold older work, in pipeline order. Does not decide the truthfulness of each unit's own isEmpty, nor timing.",
+		Explanation: "E-PATH over each pipelined variant's Run: R09.1 on every path from the branch taken on the ret flag to the normal return there are drain loops that cycle the execute units and the write units until empty, and no stage upstream of one drained earlier is cycled later without draining the downstream stage again (execute units refill the write bus); R09.2 the control unit does not dispatch ret while the execute bus is non-empty or (where the unit tracks it) a conditional branch is unresolved; R09.3 the decode unit stops decoding after ret until flushed; R09.4 the fall-off-the-end exit is guarded by the completion predicate; R09.5 in the drain at ret and after the main loop the write units are stepped without a sequence limit. Decides that ending the program is structurally preceded by draining every stage that can hold older work, in pipeline order. Does not decide the truthfulness of each unit's own isEmpty, nor timing.",
 		Assumptions: []string{"a unit reports empty only when it holds no work (unit-local invariant, not decided)"},
 		Trusted:     []string{"go/types", "role resolution of units (exec = reaches InstructionRunner.Run, write = reaches a Context writer); see evidence.anchors"},
 	})
@@ -211,6 +211,8 @@ func runC09(r *Run) {
 	ruleCompletionPredicate(r, "R09.4")
 	r.floor("R09.2b", 7)
 	ruleDispatchBookkeeping(r, "R09.2b")
+	r.floor("R09.5", 10)
+	ruleRetDrainUnfiltered(r, "R09.5")
 }
 
 // ruleRetUnits decides, on the units of one variant, the ret hold of the control
@@ -475,6 +477,87 @@ func ruleDispatchBookkeeping(r *Run, rule string) {
 				key := fmt.Sprintf("%s.(%s).%s:dispatch-bookkeeping", v.rel, f.unitT.Obj().Name(), fd.Name.Name)
 				r.check(same, rule, key, poss[0], "every place that dispatches an instruction raises the same flags afterwards: %q", sigs)
 			}
+		}
+	}
+}
+
+// ruleRetDrainUnfiltered (R09.5): the write units drop results younger than the
+// sequence limit they are given; the limit is meaningful only while a flush is in
+// progress. In the drain performed at ret and in the drain after the main loop
+// every older result must be written, so the write units are stepped with "no
+// limit" (the constant -1), never with the flush variable (which is 0 there: every
+// result would be dropped).
+func ruleRetDrainUnfiltered(r *Run, rule string) {
+	w := r.W
+	for _, v := range variants(w) {
+		if v.pkg == nil || !v.pipelined() {
+			continue
+		}
+		info := v.info
+		ret, _ := v.retAndFlushBranches()
+		var regions []ast.Node
+		if ret != nil {
+			regions = append(regions, ret.Body)
+		}
+		seenLoop := false
+		for _, s := range v.run.Body.List {
+			if seenLoop {
+				regions = append(regions, s)
+			}
+			if s == ast.Stmt(v.mainLoop()) {
+				seenLoop = true
+			}
+		}
+		n := 0
+		for _, reg := range regions {
+			ast.Inspect(reg, func(m ast.Node) bool {
+				call, ok := m.(*ast.CallExpr)
+				if !ok {
+					return true
+				}
+				sel, ok := call.Fun.(*ast.SelectorExpr)
+				if !ok || !strings.EqualFold(sel.Sel.Name, "cycle") {
+					return true
+				}
+				// receiver: a write-role unit (not an execute unit)
+				n0 := namedOf(info.TypeOf(sel.X))
+				if n0 == nil {
+					return true
+				}
+				roles := w.unitRoles(v, n0)
+				if !roles["write"] || roles["exec"] {
+					return true
+				}
+				// the int32 operand(s): direct arguments or fields of a composite-literal request
+				var limits []ast.Expr
+				for _, a := range call.Args {
+					a = ast.Unparen(a)
+					if cl, ok := a.(*ast.CompositeLit); ok {
+						for _, e := range cl.Elts {
+							if kv, ok := e.(*ast.KeyValueExpr); ok {
+								e = kv.Value
+							}
+							if typeName(info.TypeOf(e)) == "int32" {
+								limits = append(limits, e)
+							}
+						}
+					} else if typeName(info.TypeOf(a)) == "int32" {
+						limits = append(limits, a)
+					}
+				}
+				if len(limits) == 0 {
+					return true
+				}
+				n++
+				good := true
+				for _, l := range limits {
+					if c, ok := constInt64(info.Types[l]); !ok || c != -1 {
+						good = false
+					}
+				}
+				r.check(good, rule, fmt.Sprintf("%s.(CPU).Run:final-write-step#%d", v.rel, n), call.Pos(), "in the drain at ret and after the main loop the write units are stepped without a sequence limit (-1): every older result is written")
+				return true
+			})
 		}
 	}
 }
